@@ -180,8 +180,11 @@ impl<'a> DwarfUnitParser<'a> {
                         .collect::<Result<Vec<Range>, _>>()?
                         .into();
 
-                    // subprograms without a range are useless for indexing
-                    if !ranges.is_empty() {
+                    // subprograms without a range are useless for indexing,
+                    // a range that starts at address 0 is what the linker leaves behind for a
+                    // discarded (garbage-collected) function - there is no such function in the object
+                    let discarded = ranges.iter().all(|r| r.begin == 0);
+                    if !ranges.is_empty() && !discarded {
                         let mut fn_info = fn_info_from_die(die)?;
 
                         ranges.iter().for_each(|r| {
